@@ -5,7 +5,7 @@ VERIF = os.path.dirname(os.path.dirname(os.path.abspath(__file__)))
 
 TRUST = ("Trusted base: Go 1.26.8 standard library (the shipped binary uses 1.23.12; GODEBUG defaults follow go.mod), "
          "testing/synctest fake clock + quiescence detection, simnet's model of TCP (in-memory, Linux-shaped errors), "
-         "the mechanical rewrites of DESIGN 3.1.1 (durable mutex, dial/listen seams), scripted peers and independent parsers written from the RFCs. "
+         "the mechanical rewrites R1-R9 of DESIGN 3.1 (dial/listen seams, durable mutexes, preemption points, std overlay), scripted peers and independent parsers written from the RFCs. "
          "Seeded sampling of schedules/faults: a clean batch is evidence, not proof.")
 
 # id -> (level, text, design_ref, technique)
@@ -94,7 +94,7 @@ def main():
         "setup_cmd": "bin/build >/dev/null",
         "hooks": {
             "guard": "verif",
-            "enable": "bin/build copies /repo's working tree to a scratch directory, applies the mechanical rewrites of DESIGN.md 3.1.1 there, adds seam files guarded by //go:build verif and the harness, and compiles with `go1.26.8 test -c -tags verif`; /repo itself carries no hook commits",
+            "enable": "bin/build copies /repo's working tree to a scratch directory, applies the mechanical rewrites R1-R9 of DESIGN.md 3.1 there (listen/dial seams, durable mutexes, sorted map iteration, seeded jitter, statement-level preemption points, one tuning knob; net/http's body mutex through `go build -overlay`), adds seam files guarded by //go:build verif and the harness, and compiles with `go1.26.8 test -c -tags verif`; /repo itself carries no hook commits",
             "baseline_off_cmd": "cd /repo && go test -vet=off -count=1 -timeout 25m ./...",
             "source_commits": [],
             "add_only": True,
